@@ -4,6 +4,17 @@ NOT_APPLICABLE = {}
 BASE_NOTE = ("Trusted: Lean 4.33 kernel (axioms at most propext, Classical.choice, Quot.sound; audited per theorem on every run), "
              "the go/ast fact extractor and its expectations, the seeded correspondence harness (coverage reported in evidence). ")
 TEXT = {
+    "C04": dict(
+        text="Theorems survives_crash_outside_rewrite_partial (every crash point after creation except between the truncation and the "
+             "write of a rewrite: the restarted node lists the unit with its work type), survives_every_crash_if_atomic, finished_survives, "
+             "never_started_is_failed, remote_binding_survives, and C04_witness_type_lost_in_window (the recorded finding) over a model of "
+             "the unit's files as sequences of file-system steps cut at any point, and of scanForUnit/Restart. Tie: regenerated facts "
+             "(in-place rewrite, scanForUnit's steps, Restart of command and remote units, order of the remote binding writes) + real "
+             "daemon processes on a data directory with real detached runners, killed with SIGKILL at armed crash points inside unit "
+             "creation and status rewrites (daemon and runner), or from outside, restarted (repeatedly) and queried through the work "
+             "commands: listed, work type, remote node, state/size, results fetched, no query blocks.",
+        note=BASE_NOTE + "A crash is a SIGKILL (page-cache contents survive); three findings are recorded, not repaired (record "
+             "truncated by a crash inside a rewrite; dead runner leaves a unit running; failed-at-restart revived by a live runner)."),
     "C17": dict(
         text="Theorems no_crash (any sequence of listen / close any number of times / send / read / wake / subscribe / unsubscribe / "
              "dial / end-of-connection never panics), no_leak (every bound service name belongs to an open socket, by an inductive "
